@@ -19,6 +19,8 @@ func vInWindow(a *Association, cum, t uint32) bool {
 
 // one inbound packet carrying a single chunk, through the real dispatch path
 func vDeliver(a *Association, c chunk) error {
+	vSideOf(a)
+	vNoteDelivered(a, []chunk{c})
 	a.handleChunksStart()
 	err := a.handleChunk(&packet{verificationTag: a.myVerificationTag, sourcePort: a.destinationPort, destinationPort: a.sourcePort}, c)
 	a.handleChunksEnd()
